@@ -11,6 +11,18 @@ CLAIMS_LATER = {
     },
 }
 CLAIMS = {
+    'C01': {
+        'text': 'COMPONENT LEVEL ONLY (reassembly queue). Proved in Lean on the L0 model of reassemblyQueue, for ordered DATA (SSN, TSN-contiguity) and ordered I-DATA (MID/FSN): '
+                'for every message list (any sizes, any count, any initial TSN incl. the 2^32 wrap), fragments pushed in ANY order, each at most once, interleaved arbitrarily with reads of '
+                'ANY buffer size and under any entry limit, the successful reads (PPI, bytes) form a PREFIX of the written messages; isComplete is characterised (complete iff exactly all '
+                'fragments of one message). Hypothesis forced by the 16/32-bit sequence space: the pushed fragment belongs to a message fewer than 2^15 (SSN) / 2^31 (MID) ahead of the reader. '
+                'The model is tied to reassembly_queue.go by differential replay; the executable predicate (every read = one written message, at most once, in order, gap-free without forwards, '
+                'all returned after draining) is evaluated on the implementation outputs with generator ground truth. '
+                'NOT covered yet: packetize/TSN assignment (C01_packetize_wf, C01_tsn_assignment), duplicate filtering (C01_dedup, C05), wire content, and the end-to-end NetSys invariant (C01_netsys_prefix).',
+        'note': NOTE_COMMON + ' Known finding D15: nothing in the association enforces the 2^15 hypothesis for DATA (a_rwnd counts user bytes only, entry cap off by default): '
+                'an application that lags 32769 small ordered messages behind loses acknowledged messages and later stalls (witness replayed on every run; e2e witness in corpus/C01).',
+        'technique': 'Lean 4 proof (refinement of the queue to a table of messages, induction over arbitrary honest runs) + model/implementation differential replay + executable predicate on implementation outputs',
+    },
     'C11': {
         'text': 'Reassembly-queue part of C11 (statement (a) and the entry limit) proved in Lean on the L0 model of reassemblyQueue for ALL operation lists '
                 '(arbitrary chunks of both kinds, reads with any buffer size, the four forward handlers): nBytes = sum of len(userData) over all containers '
@@ -32,6 +44,6 @@ CLAIMS = {
 }
 
 _PENDING = 'check not built yet in this round (planned, see DESIGN.md §5/§8); not claimed until its theorems and correspondence run'
-NOT_APPLICABLE = {p: _PENDING for p in ['C05', 'C01', 'C02', 'C03', 'C04', 'C06', 'C07', 'C08', 'C09', 'C10', 'C12', 'C13', 'C14', 'C15', 'C17', 'C18', 'C19', 'C20']}
+NOT_APPLICABLE = {p: _PENDING for p in ['C05', 'C02', 'C03', 'C04', 'C06', 'C07', 'C08', 'C09', 'C10', 'C12', 'C13', 'C14', 'C15', 'C17', 'C18', 'C19', 'C20']}
 
 NOTES = 'Family of technique: machine-checked proof in Lean 4. See DESIGN.md. Known findings: known_findings.jsonl.'
